@@ -47,6 +47,8 @@ Branch(q) ==
 Step(q) ==
   CASE q.k = "sel" -> Sel(q)
     [] q.k = "branch" -> Branch(q)
+    [] q.k = "labels" -> LET c == TemplateLabels(q.req, q.branch, q.units_template, q.units_result, q.meta_template, q.meta_result)
+                         IN [ok |-> c = "", clause |-> c]
     [] q.k = "table" -> [ok |-> TRUE, clause |-> "", patterns |-> SetToSeq(Patterns), layouts |-> SetToSeq(Layouts)]
 
 ASSUME JsonSerialize(IOEnv.X_OUT, [i \in 1..Len(Q) |-> Step(Q[i])])
